@@ -9,12 +9,10 @@ import (
 	"runtime"
 	"runtime/debug"
 	"strings"
+	"time"
 
 	"github.com/go-openapi/loads"
-	"github.com/go-swagger/go-swagger/cmd/swagger/commands"
-	"github.com/go-swagger/go-swagger/cmd/swagger/commands/generate"
 	"github.com/go-swagger/go-swagger/cmd/swagger/commands/initcmd"
-	flags "github.com/jessevdk/go-flags"
 	yaml "gopkg.in/yaml.v3"
 
 	"verif/mc/evid"
@@ -118,33 +116,38 @@ type c19Cmd struct {
 }
 
 func c19Commands(scanDir string) []c19Cmd {
+	// every command is the real swagger binary in its own process: a log.Fatal or os.Exit inside a command
+	// is then an ordinary failure of that run, not the end of the check
+	bin := func(cwd string, args ...string) error {
+		res := runCmd(cwd, 5*time.Minute, nil, SwaggerBin(), args...)
+		if res.Err != nil {
+			if strings.Contains(res.Out, "panic:") || strings.Contains(res.Out, "fatal error:") {
+				panic("the command crashes: " + lastLines(res.Out, 6))
+			}
+			return fmt.Errorf("%v: %s", res.Err, lastLines(res.Out, 3))
+		}
+		return nil
+	}
 	return []c19Cmd{
 		{"flatten", func(dir, in, out, format string, pretty bool) error {
-			c := &commands.FlattenSpec{Compact: !pretty, Output: flags.Filename(out), Format: format}
-			c.WithFlatten = []string{"minimal"}
-			return c.Execute([]string{in})
+			return bin(dir, "flatten", "--with-flatten=minimal", in, "-o", out, "--format", format)
 		}},
 		{"expand", func(dir, in, out, format string, pretty bool) error {
-			c := &commands.ExpandSpec{Compact: !pretty, Output: flags.Filename(out), Format: format}
-			return c.Execute([]string{in})
+			return bin(dir, "expand", in, "-o", out, "--format", format)
 		}},
 		{"mixin", func(dir, in, out, format string, pretty bool) error {
 			mix := filepath.Join(dir, "mixin-empty.json")
 			if _, err := os.Stat(mix); err != nil {
 				_ = os.WriteFile(mix, []byte(`{"swagger":"2.0","info":{"title":"m","version":"1"},"paths":{}}`), 0o644)
 			}
-			c := &commands.MixinSpec{Compact: !pretty, Output: flags.Filename(out), Format: format, IgnoreConflicts: true}
-			return c.Execute([]string{in, mix})
+			return bin(dir, "mixin", "--ignore-conflicts", in, mix, "-o", out, "--format", format)
 		}},
 		{"flatten-full", func(dir, in, out, format string, pretty bool) error {
-			c := &commands.FlattenSpec{Compact: !pretty, Output: flags.Filename(out), Format: format}
-			c.WithFlatten = []string{"full"}
-			return c.Execute([]string{in})
+			return bin(dir, "flatten", "--with-flatten=full", in, "-o", out, "--format", format)
 		}},
 		{"generate-spec", func(dir, in, out, format string, pretty bool) error {
-			// SpecFile decides the format from the output file name
-			c := &generate.SpecFile{WorkDir: scanDir, Compact: !pretty, Output: flags.Filename(out), Input: flags.Filename(in)}
-			return c.Execute([]string{"./..."})
+			// generate spec decides the format from the output file name
+			return bin(scanDir, "generate", "spec", "-q", "-o", out, "--input", in, "./...")
 		}},
 	}
 }
